@@ -6,6 +6,7 @@ import (
 	"os"
 	"os/signal"
 	"path/filepath"
+	"runtime/debug"
 	"strconv"
 	"strings"
 	"syscall"
@@ -87,8 +88,13 @@ func TestDaemonChild(t *testing.T) {
 		cfgPath := filepath.Join(w.Dir, "fan2go.yaml")
 		doc := spec.RawYAML
 		if doc == "" {
+			doc = sc.RawYAML
+		}
+		if doc == "" {
 			doc = stage.ConfigYAML(sc, w)
 		}
+		doc = strings.ReplaceAll(doc, "@W@", w.Dir)
+		debug.SetMaxStack(64 << 20)
 		if err := os.WriteFile(cfgPath, []byte(doc), 0644); err != nil {
 			write(journalLine{Note: "harness: " + err.Error()})
 			os.Exit(12)
